@@ -535,6 +535,12 @@ extern int protosim_skip_ledger;
 static int op_objkind[PLAN_MAXOPS];
 static void del_obj(int s) { if (obj[s]) { SPIF_OBJ_DEL(obj[s]); obj[s] = NULL; } }
 
+/* iterators held across operations: over a container of the pool, advanced now and then, deleted later -- possibly after the container */
+#define NIT 2
+static spif_iterator_t held[NIT];
+static int held_slot[NIT];
+static spif_obj_t held_subject[NIT];
+static long held_stamp[NIT], slot_stamp[NSLOT];          /* a container that changed since the iterator was made is not walked any further */
 static void exec_common(const plan_t *p)
 {
     uint32_t base_serial;
@@ -543,6 +549,7 @@ static void exec_common(const plan_t *p)
     strelems = (int)plan_get(p, "strelems", 0);
     vobj_reset();
     base_serial = sa_serial(); base_live = sa_live_count();
+    memset(held, 0, sizeof(held)); memset(slot_stamp, 0, sizeof(slot_stamp));
     for (int s = 0; s < NSLOT; s++) observe(&last[s], s);
     for (int i = 0; i < p->nops; i++) {
         op_t *o = (op_t *)&p->ops[i];
@@ -557,7 +564,22 @@ static void exec_common(const plan_t *p)
             if (obj[s] || kind < 0 || kind >= K_NKINDS) continue;
             obj[s] = make(kind, o); okind[s] = kind;
             if (!obj[s] && !(o->na > 3 && o->a[3] > 0)) FAIL("MISMATCH", "constructor", kind, "constructor returned NULL");     /* (a stream constructor may give up: C01/C07 judge when) */
+        } else if (!strcmp(k, "it_del")) {
+            int q = (int)(o->a[1] % NIT);
+            if (held[q]) { SPIF_ITERATOR_DEL(held[q]); held[q] = NULL; probe_hit(obj[held_slot[q]] == held_subject[q] ? "iterator_deleted_before_its_container" : "iterator_deleted_after_its_container"); }
+            continue;
         } else if (!obj[s]) continue;
+        else if (!strcmp(k, "it_new")) {
+            int q = (int)(o->a[1] % NIT);
+            if (!IS_CONT(okind[s]) || held[q]) continue;
+            held[q] = IS_LIST(okind[s]) ? SPIF_LIST_ITERATOR(obj[s]) : IS_VEC(okind[s]) ? SPIF_VECTOR_ITERATOR(obj[s]) : SPIF_MAP_ITERATOR(obj[s]);
+            held_slot[q] = s; held_subject[q] = obj[s]; held_stamp[q] = slot_stamp[s];
+            probe_hit("iterator_held");
+        } else if (!strcmp(k, "it_next")) {
+            int q = (int)(o->a[1] % NIT);
+            /* only while its container is still the same, unchanged object */
+            if (held[q] && obj[held_slot[q]] == held_subject[q] && held_stamp[q] == slot_stamp[held_slot[q]] && SPIF_ITERATOR_HAS_NEXT(held[q])) (void)SPIF_ITERATOR_NEXT(held[q]);
+        }
         else if (!strcmp(k, "mut")) mutate(s, o);
         else if (!strcmp(k, "query")) query(s, o);
         else if (!strcmp(k, "dup")) {
@@ -596,6 +618,7 @@ static void exec_common(const plan_t *p)
         } else if (!strcmp(k, "del")) { del_obj(s); probe_hit("del"); }
         else continue;
         op_objkind[i] = okind[s];
+        if (strcmp(k, "query") && strncmp(k, "it_", 3) && strcmp(k, "dup")) slot_stamp[s]++;
         tr_printf("%s slot%d kind=%s", k, s, obj[s] ? kind_name[okind[s]] : "-");
         /* independence: an operation on one object never changes what any other object observes as */
         for (int q = 0; q < NSLOT; q++) {
@@ -612,6 +635,8 @@ static void exec_common(const plan_t *p)
         tr_u64("alloc", sa_live_digest());
     }
     R.cur_op = NULL; R.cur_op_index = p->nops;
+    if (held[0] && plan_get(p, "iters_last", 0)) { for (int s = 0; s < NSLOT; s++) del_obj(s); }      /* containers first, their iterators afterwards */
+    for (int q = 0; q < NIT; q++) if (held[q]) { SPIF_ITERATOR_DEL(held[q]); held[q] = NULL; }
     for (int s = 0; s < NSLOT; s++) del_obj(s);
     /* conservation: once every object the program created or was handed is deleted, the heap holds what it held before */
     if (!protosim_skip_ledger && (sa_count_live_since(base_serial) || sa_live_count() != base_live)) {
@@ -642,6 +667,7 @@ static void gen_common(plan_t *p, rng_t *r, int c05)
     plan_knob(p, "alloc.realloc", rng_range(r, 0, 2));
     plan_knob(p, "alloc.reuse", rng_range(r, 0, 2));
     plan_knob(p, "alloc.place", rng_chance(r, 1, 4));
+    plan_knob(p, "iters_last", rng_chance(r, 1, 2));
     for (int i = 0; i < nops; i++) {
         int s = (int)rng_below(r, NSLOT), k = (int)rng_below(r, 100);
         op_t *o;
@@ -677,7 +703,8 @@ static void gen_common(plan_t *p, rng_t *r, int c05)
         }
         else if (k < 50) plan_op(p, 0, "query", 2, (long)s, (long)rng_below(r, 1000));
         else if (k < 72) { int d = (int)rng_below(r, NSLOT); if (!ex[d]) { plan_op(p, 0, "dup", 2, (long)s, (long)d); ex[d] = 1; kinds[d] = kinds[s]; } }
-        else if (k < 82) plan_op(p, 0, "donereinit", 2, (long)s, (long)rng_below(r, 1000));
+        else if (k < 80) plan_op(p, 0, "donereinit", 2, (long)s, (long)rng_below(r, 1000));
+        else if (k < 82) { int w = (int)rng_below(r, 3); plan_op(p, 0, w == 0 ? "it_new" : w == 1 ? "it_next" : "it_del", 2, (long)s, (long)rng_below(r, 2)); }
         else { plan_op(p, 0, "del", 1, (long)s); ex[s] = 0; }
     }
     (void)kinds;
